@@ -54,6 +54,10 @@ def make_scratch(repo):
 
 
 def apply_edit(root, case):
+    if case.get("patch"):
+        r = subprocess.run(["patch", "-p1", "-s", "-d", root, "-i", case["patch"]],
+                           stdout=subprocess.PIPE, stderr=subprocess.STDOUT, text=True)
+        return None if r.returncode == 0 else "stale (patch does not apply: %s)" % r.stdout[:120]
     edits = case.get("edits") or [case]
     for e in edits:
         p = os.path.join(root, e["file"])
@@ -97,7 +101,28 @@ def run_case(case, repo):
         shutil.rmtree(d, ignore_errors=True)
 
 
-def load_corpus():
+def _patched_files(path):
+    out = set()
+    try:
+        with open(path) as f:
+            for l in f:
+                if l.startswith("+++ b/"):
+                    out.add(l[6:].strip())
+    except OSError:
+        pass
+    return out
+
+
+def _prop_files(prop):
+    """files a property's check reads (from its last evidence)"""
+    try:
+        with open(os.path.join(VERIF, "evidence", "%s.json" % prop)) as f:
+            return set(json.load(f)["coverage"].get("files", {}))
+    except (OSError, ValueError, KeyError):
+        return None
+
+
+def load_corpus(props=None, with_patches=False):
     cases = []
     d = os.path.join(VERIF, "selftest")
     for fn in sorted(os.listdir(d)):
@@ -105,11 +130,36 @@ def load_corpus():
             with open(os.path.join(d, fn)) as f:
                 for c in json.load(f):
                     cases.append(c)
+    if with_patches and props:
+        # independently written changes: seeds that a property's check reports (expect fire) and
+        # behaviour-preserving twins touching files the check reads (expect silent)
+        sd = os.path.join(VERIF, "seeded")
+        for sid in sorted(os.listdir(sd)) if os.path.isdir(sd) else []:
+            mp = os.path.join(sd, sid, "meta.json")
+            if not os.path.exists(mp):
+                continue
+            try:
+                fires = json.load(open(mp)).get("checks_that_fire", [])
+            except ValueError:
+                continue
+            for p in props:
+                if p in fires:
+                    cases.append({"id": "seed-%s" % sid, "prop": p, "expect": "fire", "patch": os.path.join(sd, sid, "patch.diff")})
+        td = os.path.join(VERIF, "twins")
+        for tid in sorted(os.listdir(td)) if os.path.isdir(td) else []:
+            pp = os.path.join(td, tid, "patch.diff")
+            if not os.path.exists(pp):
+                continue
+            touched = _patched_files(pp)
+            for p in props:
+                pf = _prop_files(p)
+                if pf is None or touched & pf:
+                    cases.append({"id": "twin-%s" % tid, "prop": p, "expect": "silent", "patch": pp})
     return cases
 
 
-def run_all(props=None, repo="/repo", jobs=16, only_id=None, verbose=True):
-    cases = [c for c in load_corpus() if (not props or c["prop"] in props)
+def run_all(props=None, repo="/repo", jobs=16, only_id=None, verbose=True, with_patches=False):
+    cases = [c for c in load_corpus(props, with_patches) if (not props or c["prop"] in props)
              and (only_id is None or c["id"] == only_id)]
     res = {"mutants": 0, "fired": 0, "twins": 0, "silent": 0, "stale": 0,
            "failed": []}
@@ -137,16 +187,19 @@ def main(args):
     jobs = 16
     only = None
     props = []
+    wp = False
     i = 0
     while i < len(args):
         if args[i] == "--jobs":
             jobs = int(args[i + 1]); i += 2
         elif args[i] == "--id":
             only = args[i + 1]; i += 2
+        elif args[i] == "--with-patches":
+            wp = True; i += 1
         else:
             props.append(args[i]); i += 1
     repo = os.environ.get("VERIF_REPO", "/repo")
-    r = run_all(props or None, repo, jobs, only)
+    r = run_all(props or None, repo, jobs, only, with_patches=wp)
     print("selftest: %d mutants, %d fired; %d twins, %d silent; %d stale; failed=%s" % (
         r["mutants"], r["fired"], r["twins"], r["silent"], r["stale"], r["failed"]))
     return 0 if not r["failed"] and not r["stale"] else 1
